@@ -10,7 +10,7 @@ from harness.common import T
 from harness.main import Engine
 
 PID = 'C06'
-LEVEL = 'translation_validation'
+LEVEL = 'proof'
 RULE = ('serial: stores built by parsing AND by programmatic binding (nested values, strings up to 200 chars with '
         'blanks / quotes / newlines / non-ASCII, references, macros, scoped and module-qualified names incl. selectors '
         'differing only in letter case, opaque objects, objects whose repr parses to something unequal, macros bound '
